@@ -74,7 +74,10 @@ QueriesOf(req) ==
 (*           fg, bg : [c : <<r, g, b>> hex digit strings, st : "st"/"bel"], *)
 (*           name, ver : bytes, form : "paren"/"space", xst : "st"/"bel",   *)
 (*           cell, area : <<height, width>> (XTWINOPS order),               *)
-(*           kid : Nat, kmsg : bytes, da1 : bytes]                          *)
+(*           kid : Nat, kmsg : bytes, da1 : bytes,                          *)
+(*           envName, envVer : bytes  ($TERM_PROGRAM / $TERM_PROGRAM_VERSION *)
+(*           of the process, <<>> = unset - consulted only when XTVERSION    *)
+(*           goes unanswered)]                                              *)
 (***************************************************************************)
 Term(st) == IF st = "bel" THEN BELb ELSE STb
 ColorReply(ps, f) ==
@@ -228,7 +231,7 @@ Respond(e, rq) ==
                             !.pend = e.pend \o Schedule(e),
                             !.sched = IF e.sched = <<>> THEN <<>> ELSE Tail(e.sched)]]
     [] rq.call = "tcdrain" -> [res |-> ResOK, env |-> e]
-    [] rq.call = "stream" -> [res |-> ResOK, env |-> e]
+    [] rq.call \in {"stream", "hook"} -> [res |-> ResOK, env |-> e]
     [] rq.call = "monotonic" -> [res |-> [ResOK EXCEPT !.val = e.now], env |-> e]
     [] rq.call = "termsize" -> [res |-> [ResOK EXCEPT !.win = [e.win EXCEPT !.xpx = 0, !.ypx = 0]], env |-> e]
     [] rq.call = "ioctl" ->
@@ -276,10 +279,17 @@ ReadFrame(more, tmo, min, echo) ==
   [Frame("read", "r_get1") EXCEPT !.more = more, !.tmo = tmo, !.min = min, !.echo = echo]
 WriteFrame(data) == [Frame("write", "w_write") EXCEPT !.req = data]
 \* Renderable.draw on a tty: [tcgetattr x2], [write HIDE_CURSOR], [tcsetattr FLUSH], nbody stream
-\* operations, then the clean-up: write "\n", [write SHOW_CURSOR], flush, [restoring tcsetattr].
+\* operations (preceded by the _render_ hook; a KeyboardInterrupt in them calls the
+\* _handle_interrupted_draw_ hook), then the clean-up: write "\n", [write SHOW_CURSOR], flush,
+\* [restoring tcsetattr], and LAST render_data.finalize() = the _finalize_render_data_ hook.
+\* Hooks are calls "hook" with a = 1 (_render_), 2 (_handle_interrupted_draw_), 3 (finalizer).
 \* The termios calls are skipped when echo_input=True (f.echo).
 FinCount(f) == IF f.hide THEN 3 ELSE 2
-AfterSet(f) == IF f.aux > 0 THEN [f EXCEPT !.pc = "d_body"] ELSE [f EXCEPT !.pc = "d_fin", !.nm = FinCount(f)]
+ToFin(f) == [f EXCEPT !.pc = "d_fin", !.nm = FinCount(f)]
+\* f.aux < 0: "loose" body (animation): any number of stream operations / _render_ /
+\* _handle_interrupted_draw_ hooks, until the clean-up's write("\n")  (Trace_Tty only)
+AfterSet(f) == IF f.aux < 0 THEN [f EXCEPT !.pc = "d_body"] ELSE [f EXCEPT !.pc = "d_render"]
+AfterRender(f) == IF f.aux > 0 THEN [f EXCEPT !.pc = "d_body"] ELSE ToFin(f)
 DrawFrame(echoInput, hide, nbody) ==
   LET f == [Frame("draw", "d_get1") EXCEPT !.echo = echoInput, !.hide = hide, !.aux = nbody] IN
   IF ~echoInput THEN f
@@ -293,8 +303,10 @@ MoreVal(f) ==       \* the library's own `more` lambdas
 SysPcs == {"q_get1", "q_get2", "q_set", "q_restore", "w_write", "w_drain",
            "r_get1", "r_get2", "r_set", "r_sel0", "r_read100", "r_mono0", "r_readmin", "r_setvmin",
            "r_mono1", "r_more", "r_sel", "r_read1", "r_mono2", "r_restore",
-           "s_size", "s_ioctl", "d_get1", "d_get2", "d_hide", "d_set", "d_body", "d_fin", "d_restore"}
+           "s_size", "s_ioctl", "d_get1", "d_get2", "d_hide", "d_set", "d_body", "d_fin", "d_restore",
+           "d_render", "d_intr", "d_final"}
 RestorePcs == {"q_restore", "r_restore", "d_restore", "d_fin"}
+PopPcs == RestorePcs \cup {"d_final"}      \* an exception here leaves the frame at once
 RestorePc(fn) == IF fn = "query" THEN "q_restore" ELSE IF fn = "read" THEN "r_restore" ELSE "d_fin"
 
 \* the system call the top frame is about to issue
@@ -317,6 +329,9 @@ Pending(m) ==
     [] f.pc = "s_size" -> Rq("termsize", "", NoAttr, <<>>, 0)
     [] f.pc = "s_ioctl" -> Rq("ioctl", "", NoAttr, <<>>, 0)
     [] f.pc \in {"d_hide", "d_body", "d_fin"} -> Rq("stream", "", NoAttr, <<>>, 0)
+    [] f.pc = "d_render" -> Rq("hook", "", NoAttr, <<>>, 1)
+    [] f.pc = "d_intr" -> Rq("hook", "", NoAttr, <<>>, 2)
+    [] f.pc = "d_final" -> Rq("hook", "", NoAttr, <<>>, 3)
     [] OTHER -> NoRq
 
 \* return from the top frame: pop; the parent continues at the pc it stored when calling
@@ -329,8 +344,10 @@ Return(m, rb, rnone) ==
 RECURSIVE Raise(_, _)
 Raise(m, kind) ==
   LET f == Top(m) IN
-  IF f.intry /\ f.pc \notin RestorePcs
-    THEN SetTop(m, [f EXCEPT !.exc = kind, !.pc = RestorePc(f.fn), !.nm = IF f.fn = "draw" THEN FinCount(f) ELSE f.nm])
+  IF f.intry /\ f.pc \notin PopPcs
+    THEN (IF f.fn = "draw" /\ f.pc = "d_body" /\ kind = "KeyboardInterrupt"
+            THEN SetTop(m, [f EXCEPT !.exc = kind, !.pc = "d_intr"])     \* except KeyboardInterrupt: hook; raise
+            ELSE SetTop(m, [f EXCEPT !.exc = kind, !.pc = RestorePc(f.fn), !.nm = IF f.fn = "draw" THEN FinCount(f) ELSE f.nm]))
   ELSE IF Len(m.stack) = 1 THEN [m EXCEPT !.stack = <<>>, !.status = "raised", !.exc = kind]
   ELSE Raise([m EXCEPT !.stack = SubSeq(m.stack, 1, Len(m.stack) - 1)], kind)
 
@@ -393,11 +410,13 @@ Internal(m) ==
                      !.b = IF Included(t, ReqColors, "bg", f.inp) THEN ExpectColor(t.bg.c) ELSE <<>>] IN
          Return([m EXCEPT !.val = v], f.inp, f.aux = 1)
     [] f.pc = "n_ret" ->
+         \* XTVERSION answered: the reply, lower-cased name; otherwise the environment
+         \* ($TERM_PROGRAM, $TERM_PROGRAM_VERSION), the name lower-cased as well
          LET k == NameKnown(m, f.inp)
-             nm == IF k THEN LowerS(m.cfg.term.name) ELSE <<>>
-             vr == IF k THEN m.cfg.term.ver ELSE <<>>
-             v == [NoVal EXCEPT !.an = ~k, !.a = nm, !.bn = ~k, !.b = vr] IN
-         Return([m EXCEPT !.val = v, !.nvValid = TRUE, !.nvNone = ~k, !.nvName = nm, !.nvVer = vr],
+             nm == LowerS(IF k THEN m.cfg.term.name ELSE m.cfg.term.envName)
+             vr == IF k THEN m.cfg.term.ver ELSE m.cfg.term.envVer
+             v == [NoVal EXCEPT !.an = nm = <<>>, !.a = nm, !.bn = vr = <<>>, !.b = vr] IN
+         Return([m EXCEPT !.val = v, !.nvValid = TRUE, !.nvNone = nm = <<>>, !.nvName = nm, !.nvVer = vr],
                 f.inp, f.aux = 1)
     \* get_cell_size (cache assumed cold): terminal size, ioctl, XTWINOPS fallback
     [] f.pc = "s_noioctl" -> Push(m, "s_q", QueryFrame(ReqCell, "c", TNone))
@@ -443,6 +462,8 @@ Feed(m, res) ==
   LET f == Top(m) IN
   IF ~res.ok THEN
     (IF f.pc = "s_ioctl" /\ res.kind = "OSError" THEN Norm(SetTop(m, [f EXCEPT !.pc = "s_noioctl"]))
+     ELSE IF f.pc = "d_body" /\ f.aux < 0       \* loose body: whether the animation swallows it is not modelled
+       THEN (IF res.data = <<10>> THEN Norm(Raise(SetTop(m, ToFin(f)), res.kind)) ELSE m)
      ELSE Norm(Raise(m, res.kind)))
   ELSE Norm(
   CASE f.pc = "q_get1" -> SetTop(m, [f EXCEPT !.old = res.attr, !.pc = "q_get2"])
@@ -479,12 +500,16 @@ Feed(m, res) ==
                                               !.pc = IF f.hide THEN "d_hide" ELSE "d_set"])
     [] f.pc = "d_hide" -> SetTop(m, IF f.echo THEN AfterSet(f) ELSE [f EXCEPT !.pc = "d_set"])
     [] f.pc = "d_set" -> SetTop(m, AfterSet(f))
-    [] f.pc = "d_body" -> SetTop(m, IF f.aux > 1 THEN [f EXCEPT !.aux = f.aux - 1] ELSE AfterSet([f EXCEPT !.aux = 0]))
+    [] f.pc = "d_render" -> SetTop(m, AfterRender(f))
+    [] f.pc = "d_body" ->
+         SetTop(m, IF f.aux < 0 THEN (IF res.data = <<10>> THEN [ToFin(f) EXCEPT !.nm = FinCount(f) - 1] ELSE f)
+                   ELSE IF f.aux > 1 THEN [f EXCEPT !.aux = f.aux - 1] ELSE ToFin([f EXCEPT !.aux = 0]))
+    [] f.pc = "d_intr" -> SetTop(m, ToFin(f))
     [] f.pc = "d_fin" ->
          IF f.nm > 1 THEN SetTop(m, [f EXCEPT !.nm = f.nm - 1])
-         ELSE IF f.echo THEN (IF f.exc # "" THEN Raise(m, f.exc) ELSE Return(m, <<>>, TRUE))
-         ELSE SetTop(m, [f EXCEPT !.nm = 0, !.pc = "d_restore"])
-    [] f.pc = "d_restore" -> IF f.exc # "" THEN Raise(m, f.exc) ELSE Return(m, <<>>, TRUE))
+         ELSE SetTop(m, [f EXCEPT !.nm = 0, !.pc = IF f.echo THEN "d_final" ELSE "d_restore"])
+    [] f.pc = "d_restore" -> SetTop(m, [f EXCEPT !.pc = "d_final"])
+    [] f.pc = "d_final" -> IF f.exc # "" THEN Raise(m, f.exc) ELSE Return(m, <<>>, TRUE))
 
 \* start an operation: op = [name, more, tmo, min, echo, req, hide, nbody]
 OpFrame(op) ==
@@ -503,8 +528,8 @@ Start(cfg, op) == Norm(NewMachine(cfg, OpFrame(op)))
 \* what the operation must report when every supported reply arrives in time
 \* (stated from the terminal's facts alone, independently of the machine above)
 ExpectedVal(opname, enabled, swap, t, win, ioctlFails) ==
-  LET name == IF enabled /\ "xtv" \in t.sup THEN LowerS(t.name) ELSE <<>>
-      ver == IF enabled /\ "xtv" \in t.sup THEN t.ver ELSE <<>>
+  LET name == LowerS(IF enabled /\ "xtv" \in t.sup THEN t.name ELSE t.envName)
+      ver == IF enabled /\ "xtv" \in t.sup THEN t.ver ELSE t.envVer
       kok == enabled /\ "kitty" \in t.sup /\ t.kid = 31 /\ t.kmsg = MsgOK IN
   CASE opname = "colors" ->
          [NoVal EXCEPT !.an = ~(enabled /\ "fg" \in t.sup),
@@ -512,7 +537,7 @@ ExpectedVal(opname, enabled, swap, t, win, ioctlFails) ==
                        !.bn = ~(enabled /\ "bg" \in t.sup),
                        !.b = IF enabled /\ "bg" \in t.sup THEN ExpectColor(t.bg.c) ELSE <<>>]
     [] opname = "namever" ->
-         [NoVal EXCEPT !.an = name = <<>>, !.a = name, !.bn = name = <<>>, !.b = ver]
+         [NoVal EXCEPT !.an = name = <<>>, !.a = name, !.bn = ver = <<>>, !.b = ver]
     [] opname = "cellsize" ->
          IF IoctlGood(win, ioctlFails) THEN CellVal(CellFromArea(<<win.xpx, win.ypx>>, win, swap))
          ELSE IF ~enabled THEN NoVal
